@@ -9,6 +9,8 @@ import StirVerif.C20.ProofsKL
 import StirVerif.C20.ProofsDescentModel
 import StirVerif.C20.ProofsGeoClass
 import StirVerif.C20.ProofsGeoStructure
+import StirVerif.C20.ProofsDetPair
+import StirVerif.C20.ProofsNoModel
 /-!
 # C20 — component-based normalisation: data conversions are lossless, ML steps descend.  Property theorems.
 
@@ -22,7 +24,10 @@ The descent of the efficiency iteration (§6) is proved twice: abstractly, for a
 (`C20_eff_iteration_descends_on_model`, by the refinement `ProofsDescentModel.lean`: the in-place detector loop of `iterateEff`
 is the abstract sweep, `klPairs` is half the abstract objective).  The fixed point of the geometric factors (§5,
 `C20_geo_fixed_point`) rests on the class structure of the index maps of `make_geo_data` and `apply_geo_norm`
-(`C20_geo_class_structure`, `ProofsGeoFold/Class/Orbit/Mirror/Structure.lean`).  Nothing in this file is stated without proof.
+(`C20_geo_class_structure`, `ProofsGeoFold/Class/Orbit/Mirror/Structure.lean`).  §7 states the conversion, apply/un-apply and
+fixed-point clauses for the two-dimensional `DetPairData` family (one sinogram pair), §8 shows that the "version without model" of
+`iterate_efficiencies` / `make_fan_sum_data` is the version with the model of ones, so that the fixed-point and descent theorems
+of §5–§6 apply to it.  Nothing in this file is stated without proof.
 -/
 namespace StirVerif.C20
 
@@ -151,7 +156,7 @@ variable {K : Type} [Field K] [DecidableEq K]
 
 /-- *"'un-applying' restores the data"* — efficiencies: `apply_efficiencies(·, eff, false)` after `apply_efficiencies(·, eff, true)`
 returns every array element, for non-zero efficiencies, any field.  (Holds for any loop nest and index map: see
-`factorFold_unapply_apply`.) -/
+`factorFold_unapply_apply` — the same lemma gives the `DetPairData` overloads, `C20_dp_apply_unapply_id`.) -/
 theorem C20_apply_unapply_id_efficiencies {d : Dims} (wf : d.WF) (F : Fan K) (eff : Tab K) (hne : ∀ x ∈ d.dets, eff.get x ≠ 0)
     (k : Key) : (applyEff d (applyEff d F eff true) eff false).get k = F.get k ∧
       (applyEff d (applyEff d F eff false) eff true).get k = F.get k :=
@@ -194,7 +199,9 @@ theorem C20_fan_sums_of_model_data {d : Dims} (wf : d.WF) (model : Fan K) (eff :
 
 /-- *"For data generated exactly from a model, the model parameters are a fixed point of the maximum-likelihood iterations"* —
 efficiencies: the in-place sweep of `iterate_efficiencies` on the fan sums of `ε_a ε_b m_ab` returns `ε` (non-zero
-efficiencies and denominators, any field). -/
+efficiencies and denominators, any field).  With `model = Fan.const d 1` this is also the model-free overload
+`iterate_efficiencies(efficiencies, data_fan_sums, max_ring_diff, half_fan_size)` (`C20_no_model_is_model_of_ones`,
+`C20_eff_fixed_point_no_model`); the `DetPairData` overload is `C20_dp_eff_fixed_point`. -/
 theorem C20_eff_fixed_point {d : Dims} (wf : d.WF) (model : Fan K) (eff : Tab K) (hne : ∀ x ∈ d.dets, eff.get x ≠ 0)
     (hden : ∀ x ∈ d.dets, effDenominator d model eff x.1 x.2 ≠ 0) (k : Int × Int) :
     (iterateEff d eff (makeFanSums d (applyEff d model eff true)) model).get k = eff.get k :=
@@ -403,7 +410,9 @@ Proof (`ProofsDescentModel.lean`): refinement to the abstract theorem `C20_eff_i
 `y_ab` / `m_ab` = `data.at` / `model.at` inside the window and `0` outside — the two inner loops of `FanProjData::sum` and of the
 denominator visit every detector of the window exactly once (`loop_sum_eq`), one pass of the loop body is the coordinate update
 (`effStep_refines`), the loop is the sweep (`iterateEff_refines`), and the filtered loop nest of `klPairs` names every unordered
-pair of the window exactly once, so the abstract objective is `2 · klPairs` (`klObjective_eq_two_mul_klPairs`). -/
+pair of the window exactly once, so the abstract objective is `2 · klPairs` (`klObjective_eq_two_mul_klPairs`).
+Since `iterateEffNM = iterateEff … (Fan.const d 1)` (`C20_no_model_is_model_of_ones`) the theorem also covers the model-free overload of
+`iterate_efficiencies` (`C20_eff_iteration_descends_no_model`). -/
 theorem C20_eff_iteration_descends_on_model :
   ∀ (d : Dims) (data model : Fan ℝ) (eff : Tab ℝ), d.WF →
     (∀ c ∈ d.canon, 0 ≤ data.get (d.key c) ∧ 0 < model.get (d.key c)) →
@@ -459,5 +468,152 @@ theorem C20_klFan_visits_each_pair_once_fails :
     ¬ ∀ c ∈ (⟨1, 4, 0, 1⟩ : Dims).canon, ∀ c' ∈ (⟨1, 4, 0, 1⟩ : Dims).canon,
         (c'.1 = c.2.2.1 ∧ c'.2.2.1 = c.1 ∧ c'.2.1 = Int.tmod c.2.2.2 4 ∧ Int.tmod c'.2.2.2 4 = c.2.1) → c' = c := by
   decide
+
+/-! ## 7. The two-dimensional detector-pair representation (`DetPairData`: one sinogram pair `±s` at one axial position) -/
+
+section detpair
+variable {K : Type} [OfNat K 0]
+
+/-- *"each entry is the value of the bin that the geometry assigns to that detector pair"* — `make_det_pair_data`: after the loop
+over `(view, tangential position)` the entry `(a, b)` of the detector pair of a bin holds the value of that bin in the sinogram of
+segment `+s`, and the entry `(b, a)` its value in the sinogram of segment `-s`.  The detector-pair ↔ bin map
+(`get_det_num_pair_for_view_tangential_pos_num`, property C01) is the parameter `Prod.fst`; `DPConsistent`: detector numbers inside
+the ring and no two bins with different values on one ordered detector pair. -/
+theorem C20_dp_entry_is_bin_value {d : DPDims} (wf : d.WF) (bins : List ((Int × Int) × (K × K))) (hc : DPConsistent d bins)
+    {e : (Int × Int) × (K × K)} (he : e ∈ bins) :
+    (makeDP d bins).at2 d e.1.1 e.1.2 = e.2.1 ∧ (makeDP d bins).at2 d e.1.2 e.1.1 = e.2.2 :=
+  makeDP_at wf bins hc he
+
+/-- *"Converting projection data to the detector-pair … representation … and back is lossless"* — `set_det_pair_data ∘
+make_det_pair_data` returns to every bin of the two sinograms its own value (for `s = 0` only one sinogram is written). -/
+theorem C20_dp_roundtrip {d : DPDims} (wf : d.WF) (bins : List ((Int × Int) × (K × K))) (hc : DPConsistent d bins) (segNonzero : Bool) :
+    setDP d (makeDP d bins) segNonzero (bins.map Prod.fst) = bins.map fun e => (e.2.1, if segNonzero then some e.2.2 else none) :=
+  dp_roundtrip wf bins hc segNonzero
+
+end detpair
+
+example : dpDimsOf 8 (-2) 2 = ⟨8, 2⟩ ∧ dpDimsOf 8 (-3) 2 = ⟨8, 3⟩ ∧ (⟨8, 3⟩ : DPDims).WF ∧ ¬ (dpDimsOf 8 (-4) 3).WF := by decide
+example : (⟨8, 2⟩ : DPDims).inData 7 2 ∧ (⟨8, 2⟩ : DPDims).inData 2 7 ∧ ¬ (⟨8, 2⟩ : DPDims).inData 7 0 := by decide
+/-- `DPConsistent` is satisfiable by bins with distinct values (segment `s ≠ 0`: two sinograms) … -/
+example : DPConsistent (K := Int) ⟨4, 1⟩ [((0, 2), (5, 6)), ((1, 3), (7, 8)), ((0, 1), (2, 3)), ((1, 2), (4, 9))] := by
+  unfold DPConsistent; decide
+/-- … and fails when two bins claim the same ordered detector pair with different values -/
+example : ¬ DPConsistent (K := Int) ⟨4, 1⟩ [((0, 2), (5, 6)), ((2, 0), (7, 8))] := by
+  unfold DPConsistent; decide
+
+/-- `DetPairData::is_in_data(a, b)` is **not** "`b` lies in the fan of `a`": for `b` below `get_min_index(a)` only the upper end is
+tested (`b + num_detectors <= get_max_index(a)`), so detector 0 is reported in the data of detector 7 (8 detectors, half fan 1, fan of
+7 = {2,3,4}) although `operator()(7, 0)` addresses `[7][8]`, outside `[7][10..12]`.  (`FanProjData::is_in_data` has the same test.  The
+functions of `ML_norm.cxx` call it only with pairs for which it is right; not a clause of the property.) -/
+theorem C20_dp_is_in_data_not_fan_membership :
+    (⟨8, 1⟩ : DPDims).isInData 7 0 = true ∧ ¬ (⟨8, 1⟩ : DPDims).inData 7 0 ∧ (⟨1, 8, 0, 1⟩ : Dims).isInData 0 7 0 0 = true ∧
+      ¬ (⟨1, 8, 0, 1⟩ : Dims).inWindow 0 7 0 0 := by decide
+
+section detpair_field
+variable {K : Type} [Field K] [DecidableEq K]
+
+/-- *"'un-applying' restores the data"* — the `DetPairData` overloads of `apply_efficiencies`, `apply_block_norm`, `apply_geo_norm`:
+every array element, non-zero factors, any field. -/
+theorem C20_dp_apply_unapply_id {d : DPDims} (wf : d.WF) (F : Fan K) (eff blk geo : Tab K) (nb half : Int)
+    (hne : ∀ a, 0 ≤ a → a < d.N → eff.get (0, a) ≠ 0) (hblk : ∀ c ∈ d.canon, dpBlockFactor d nb blk c ≠ 0)
+    (hgeo : ∀ c ∈ d.canon, dpGeoFactor d half geo c ≠ 0) (k : Key) :
+    (dpApplyEff d (dpApplyEff d F eff true) eff false).get k = F.get k ∧
+      (dpApplyBlock d nb (dpApplyBlock d nb F blk true) blk false).get k = F.get k ∧
+      (dpApplyGeo d half (dpApplyGeo d half F geo true) geo false).get k = F.get k :=
+  ⟨factorFold_unapply_apply _ _ _ _ (fun _ hc => dpEffFactor_ne_zero wf eff hne hc) k, factorFold_unapply_apply _ _ _ _ hblk k,
+    factorFold_unapply_apply _ _ _ _ hgeo k⟩
+
+/-- *"Applying efficiencies … multiplies each detector-pair entry by the product of the factors of its two detectors"* —
+`apply_efficiencies(DetPairData&, …)`: every detector pair of the ring inside the fan, addressed through `operator()`; un-applying
+divides by it. -/
+theorem C20_dp_apply_is_product_of_two_detectors {d : DPDims} (wf : d.WF) (F : Fan K) (eff : Tab K) {a b : Int} (h : d.inData a b) :
+    (dpApplyEff d F eff true).at2 d a b = F.at2 d a b * (eff.get (0, a) * eff.get (0, b)) ∧
+      (dpApplyEff d F eff false).at2 d a b = F.at2 d a b / (eff.get (0, a) * eff.get (0, b)) :=
+  ⟨dpApplyEff_at wf F eff h, dpUnapplyEff_at wf F eff h⟩
+
+/-- *"… (or its geometric class)"*: every entry of the loop nest is multiplied exactly once, by
+`block_data[a / cpb][(b / cpb) % num_blocks]` (`apply_block_norm`) / by the geometric factor of its class, `dpGeoIndex`: translated
+to the first block and mirrored into its first half (`apply_geo_norm`). -/
+theorem C20_dp_apply_block_geo_factor {d : DPDims} (F X : Fan K) (T : Tab K) (nb half : Int) {c : Key} (hc : c ∈ d.canon) :
+    (dpApplyBlock d nb F T true).get (d.key c) = F.get (d.key c) * dpBlockFactor d nb T c ∧
+      (dpApplyGeo d half X T true).get (d.key c) = X.get (d.key c) * T.get (dpGeoIndex d half c.2.1 c.2.2.2) := by
+  constructor
+  · unfold dpApplyBlock
+    rw [factorFold_true, dpVisitProd_canon _ hc]
+  · unfold dpApplyGeo
+    rw [factorFold_true, dpVisitProd_canon _ hc]
+    rfl
+
+/-- *"For data generated exactly from a model, the model parameters are a fixed point of the maximum-likelihood iterations"* —
+`iterate_efficiencies(Array<1,float>&, fan sums, const DetPairData& model)` on the fan sums (`make_fan_sum_data`) of
+`apply_efficiencies(model, ε)` returns `ε` (in-place sweep; non-zero efficiencies and denominators, any field). -/
+theorem C20_dp_eff_fixed_point (d : DPDims) (model : Fan K) (eff : Tab K) (hne : ∀ a, 0 ≤ a → a ≤ d.N - 1 → eff.get (0, a) ≠ 0)
+    (hden : ∀ a, 0 ≤ a → a ≤ d.N - 1 → dpEffDenominator d model eff a ≠ 0) (k : Int × Int) :
+    (dpIterateEff d eff (dpMakeFanSums d (dpApplyEff d model eff true)) model).get k = eff.get k :=
+  dpIterateEff_fixed d model eff hne hden k
+
+/-- *"0 where the fan sum is 0"* for the `DetPairData` overload -/
+theorem C20_dp_dead_detector_gets_zero (d : DPDims) (sums : Tab K) (model : Fan K) (T : Tab K) (a : Int) (h : sums.get (0, a) = 0) :
+    (dpEffStep d sums model T a).get (0, a) = 0 :=
+  dpEffStep_dead d sums model T a h
+
+end detpair_field
+
+/-- the geometric class of `apply_geo_norm(DetPairData&)` on 8 detectors in blocks of 4 (half fan 2): the entry `(1, 5)` of the first
+half block, its translation by one block `(5, 9)`, its mirror image in the ring `(6, 2)` and its mirror image in the block `(2, 6)`
+all use the geometric factor `[1][5]` -/
+example : dpGeoIndex ⟨8, 2⟩ 2 1 5 = (1, 5) ∧ dpGeoIndex ⟨8, 2⟩ 2 5 9 = (1, 5) ∧ dpGeoIndex ⟨8, 2⟩ 2 6 2 = (1, 5) ∧
+    dpGeoIndex ⟨8, 2⟩ 2 2 6 = (1, 5) := by decide
+
+/-! ## 8. The versions without model -/
+
+section nomodel
+variable {K : Type} [Field K] [DecidableEq K]
+
+/-- `iterate_efficiencies(efficiencies, data_fan_sums, max_ring_diff, half_fan_size)` ("version without model") **is**
+`iterate_efficiencies(efficiencies, data_fan_sums, model)` with the `FanProjData` that holds `1` in every element, and
+`make_fan_sum_data(fan_sums, efficiencies, max_ring_diff, half_fan_size)` gives the fan sums of `apply_efficiencies` on that model —
+for every well-formed geometry, any field.  Hence every theorem of §5–§6 about `iterateEff` / `makeFanSums` holds for them. -/
+theorem C20_no_model_is_model_of_ones {d : Dims} (wf : d.WF) (eff sums : Tab K) :
+    iterateEffNM d eff sums = iterateEff d eff sums (Fan.const d 1) ∧
+      ∀ x ∈ d.dets, (makeFanSumsNM d eff).get x = (makeFanSums d (applyEff d (Fan.const d 1) eff true)).get x :=
+  ⟨iterateEffNM_eq wf eff sums, fun _ hx => makeFanSumsNM_eq_model wf eff hx⟩
+
+end nomodel
+
+section nomodel_ordered
+variable {K : Type} [Field K] [LinearOrder K] [IsStrictOrderedRing K]
+
+/-- *"For data generated exactly from a model, the model parameters are a fixed point …"* — the model-free pair: fan sums made by
+`make_fan_sum_data(…, efficiencies, max_ring_diff, half_fan_size)` from positive efficiencies are reproduced by the model-free
+`iterate_efficiencies`. -/
+theorem C20_eff_fixed_point_no_model {d : Dims} (wf : d.WF) (eff : Tab K) (heff : ∀ x ∈ d.dets, 0 < eff.get x) (k : Int × Int) :
+    (iterateEffNM d eff (makeFanSumsNM d eff)).get k = eff.get k :=
+  iterateEffNM_fixed wf eff heff k
+
+end nomodel_ordered
+
+/-- *"every efficiency iteration leaves the Kullback-Leibler distance between symmetric data and the product model no larger than
+before"* — the model-free overload: product model `ε_a ε_b` on every LOR of the window. -/
+theorem C20_eff_iteration_descends_no_model {d : Dims} (wf : d.WF) (data : Fan ℝ) (eff : Tab ℝ)
+    (hpos : ∀ c ∈ d.canon, 0 ≤ data.get (d.key c))
+    (hsym : ∀ ra a rb b, d.inWindow ra a rb b → data.at d ra a rb b = data.at d rb b ra a)
+    (heff : ∀ x ∈ d.dets, 0 < eff.get x ∧ 0 < (makeFanSums d data).get x) :
+    klPairs Real.log d data (applyEff d (Fan.const d 1) (iterateEffNM d eff (makeFanSums d data)) true) 0 ≤
+      klPairs Real.log d data (applyEff d (Fan.const d 1) eff true) 0 :=
+  iterateEffNM_descends_klPairs wf data eff hpos hsym heff
+
+/-- hypotheses of `C20_eff_fixed_point_no_model` / `C20_eff_iteration_descends_no_model` are satisfiable (2 rings of 8 detectors, ring
+difference 1, half fan 2; efficiencies 1/2, data 3) -/
+example : ∃ (eff : Tab ℝ) (data : Fan ℝ), (⟨2, 8, 1, 2⟩ : Dims).WF ∧
+    (∀ c ∈ (⟨2, 8, 1, 2⟩ : Dims).canon, 0 ≤ data.get ((⟨2, 8, 1, 2⟩ : Dims).key c)) ∧
+    (∀ ra a rb b, (⟨2, 8, 1, 2⟩ : Dims).inWindow ra a rb b → data.at ⟨2, 8, 1, 2⟩ ra a rb b = data.at ⟨2, 8, 1, 2⟩ rb b ra a) ∧
+    (∀ x ∈ (⟨2, 8, 1, 2⟩ : Dims).dets, 0 < eff.get x ∧ 0 < (makeFanSums ⟨2, 8, 1, 2⟩ data).get x) := by
+  have wf : (⟨2, 8, 1, 2⟩ : Dims).WF := by decide
+  have hdata : ∀ c ∈ (⟨2, 8, 1, 2⟩ : Dims).canon, 0 < (Fan.const ⟨2, 8, 1, 2⟩ (3 : ℝ)).get ((⟨2, 8, 1, 2⟩ : Dims).key c) := fun c hc => by
+    rw [Fan.const_get _ _ hc]; norm_num
+  exact ⟨Tab.const _ (1 / 2), Fan.const _ 3, wf, fun c hc => (hdata c hc).le,
+    fun ra a rb b h => by rw [Fan.const_at wf _ h, Fan.const_at wf _ (inWindow_symm wf h)],
+    fun x hx => ⟨by rw [Tab.const_get _ _ hx]; norm_num, makeFanSums_pos wf _ hdata hx⟩⟩
 
 end StirVerif.C20
